@@ -65,6 +65,7 @@ def setup_run(case, schedule, opts, tag='run'):
                         max_steps=opts.get('max_steps', 3_000_000), max_vtime=opts.get('max_vtime', 40_000.0),
                         schedule=schedule)
     K.pool_delay_p = knobs.get('pool_delay_p', 0.0)
+    K.slow_pool = knobs.get('slow_pool') or None
     R.REC = R.Recorder()
     R.install_fs_seams(root)
     R.register_backends()
@@ -92,6 +93,7 @@ def finish_run(simk, R, K, root, result):
     c['fault.stall'] = K.stalls
     c['fault.preempt'] = K.preempts
     c['fault.pool_task_delayed'] = K.pool_delays
+    c['fault.slow_pool_task_delayed'] = K.slow_pool_delays
     if K.stop_reason:
         c['stop.%s' % K.stop_reason] = 1
     result['counters'] = c
